@@ -163,6 +163,46 @@ def bundleLine (bm : List Nat) (toks : List String) : List Nat × String :=
     | some i => match bundleUpdate bm i false with
       | .ok b => (b, "ok " ++ show_ b)
       | .error e => (bm, "err " ++ e.name ++ " " ++ show_ bm)
+  -- instruction level (family xbun): `bm = []` stands for a deleted bundle; the pool has price 1.0
+  | ["xnew", _ts] => (List.replicate 32 0, "ok " ++ show_ (List.replicate 32 0))
+  | ["xopen", i, lo, hi, auth, ts] =>
+    match i.toNat?, lo.toInt?, hi.toInt?, auth.toNat?, ts.toNat? with
+    | some i, some lo, some hi, some auth, some ts =>
+      if bm.isEmpty then (bm, "err Deleted")
+      else if auth = 2 then (bm, "err AccountNotSigner " ++ show_ bm)
+      else if i < 256 && bundleBit bm i then (bm, "err AccountAlreadyInitialized " ++ show_ bm)
+      else if auth = 1 then (bm, "err MissingOrInvalidDelegate " ++ show_ bm)
+      else match bundleUpdate bm i true with
+        | .error e => (bm, "err " ++ e.name ++ " " ++ show_ bm)
+        | .ok b =>
+          match resolveOneSided lo hi ts 18446744073709551616 with
+          | .error e => (bm, "err " ++ e.name ++ " " ++ show_ bm)
+          | .ok (l, u) =>
+            match validateTickRange ts l u with
+            | .error e => (bm, "err " ++ e.name ++ " " ++ show_ bm)
+            | .ok _ => (b, s!"ok {l} {u} " ++ show_ b)
+    | _, _, _, _, _ => (bm, "bad-op")
+  | ["xclose", i, auth, dirty] =>
+    match i.toNat?, auth.toNat?, dirty.toNat? with
+    | some i, some auth, some dirty =>
+      if bm.isEmpty then (bm, "err Deleted")
+      else if !(i < 256 && bundleBit bm i) then (bm, "err AccountNotInitialized " ++ show_ bm)
+      else if auth = 2 then (bm, "err AccountNotSigner " ++ show_ bm)
+      else if auth = 1 then (bm, "err MissingOrInvalidDelegate " ++ show_ bm)
+      else if dirty ≠ 0 then (bm, "err ClosePositionNotEmpty " ++ show_ bm)
+      else match bundleUpdate bm i false with
+        | .error e => (bm, "err " ++ e.name ++ " " ++ show_ bm)
+        | .ok b => (b, "ok " ++ show_ b)
+    | _, _, _ => (bm, "bad-op")
+  | ["xdel", auth] =>
+    match auth.toNat? with
+    | some auth =>
+      if bm.isEmpty then (bm, "err Deleted")
+      else if auth = 2 then (bm, "err AccountNotSigner " ++ show_ bm)
+      else if auth ≠ 0 then (bm, "err ConstraintRaw " ++ show_ bm)
+      else if !bundleDeletable bm then (bm, "err PositionBundleNotDeletable " ++ show_ bm)
+      else ([], "ok gone")
+    | none => (bm, "bad-op")
   | _ => (bm, "bad-op")
 
 def showTick (t : TickData) : String :=
